@@ -55,6 +55,17 @@ fn c17_cellref_contract() {
     kani::cover!(c.register == Register::AP && k > 0, "reach:ap-cell");
     let _ = c.apply_known_ap_change(k);
 }
+// The same statement as the in-place `ensures`, as a plain harness: Kani produces no concrete
+// playback for a failed `ensures`, and contract attributes are inert natively, so this is the
+// harness whose counter-example can be replayed on the real code.
+#[kani::proof]
+fn c17_cellref_direct() {
+    let old: CellRef = kani::any();
+    let mut c = old;
+    let k: usize = kani::any();
+    let r = c.apply_known_ap_change(k);
+    assert!(cellref_post(old, c, k, r), "C17 CellRef::apply_known_ap_change: ok iff representable; shifted by k iff ok; unchanged otherwise");
+}
 // lemma over the spec functions: a successful shift preserves the denoted address for every ap, fp
 #[kani::proof]
 fn c17_lemma_shift_preserves_address() {
